@@ -18,8 +18,15 @@ evidence/<id>.json.
 import argparse, json, os, resource, shutil, subprocess, sys, time, hashlib
 
 ROOT = os.path.dirname(os.path.abspath(__file__))
-WORK = os.path.join(ROOT, ".work")
+# VERIF_REPO (development only): run the checks against a scratch copy of the repository instead of
+# /repo (sensitivity runs against seeded changes).  Such a run uses its own work directory and go.mod
+# and writes its evidence there, so it never disturbs the registered checks or their evidence.
+ALT_REPO = os.environ.get("VERIF_REPO", "")
+if ALT_REPO in ("/repo", "/repo/"):
+    ALT_REPO = ""
+WORK = os.path.join(ROOT, ".work" + ("-alt-" + hashlib.sha1(ALT_REPO.encode()).hexdigest()[:10] if ALT_REPO else ""))
 BIN = os.path.join(WORK, "bin")
+EVID = os.path.join(ROOT, "evidence") if not ALT_REPO else os.path.join(WORK, "evidence")
 
 GOENV = {
     "GOFLAGS": "-mod=mod", "GOPROXY": "off", "GOSUMDB": "off", "GOTOOLCHAIN": "local",
@@ -51,7 +58,24 @@ def goenv():
         if v != "":
             e[k] = v
     e["VERIF_ROOT"] = ROOT
+    if ALT_REPO:
+        e["VERIF_REPO"] = ALT_REPO
+        e["GOFLAGS"] = "-mod=mod -modfile=" + alt_modfile()
     return e
+
+
+def alt_modfile():
+    """go.mod / go.sum twin whose replace directive points at VERIF_REPO."""
+    os.makedirs(WORK, exist_ok=True)
+    mod = os.path.join(WORK, "alt.mod")
+    if not os.path.exists(mod):
+        with open(os.path.join(ROOT, "go.mod")) as f:
+            txt = f.read()
+        txt = txt.replace("=> /repo", "=> " + ALT_REPO)
+        with open(mod, "w") as f:
+            f.write(txt)
+        shutil.copyfile(os.path.join(ROOT, "go.sum"), os.path.join(WORK, "alt.sum"))
+    return mod
 
 
 def sync_gosum():
@@ -193,7 +217,7 @@ def load_rule(prop):
 
 
 def write_evidence(prop, tier, seed, tot, wall, nviol, extra=None):
-    os.makedirs(os.path.join(ROOT, "evidence"), exist_ok=True)
+    os.makedirs(EVID, exist_ok=True)
     cov = {
         "evaluations": int(tot["evaluations"]),
         "distinct_nontrivial": len(tot["hashes"]),
@@ -219,7 +243,7 @@ def write_evidence(prop, tier, seed, tot, wall, nviol, extra=None):
         ],
         "wall_s": round(wall, 2), "violations": int(nviol),
     }
-    with open(os.path.join(ROOT, "evidence", prop + ".json"), "w") as f:
+    with open(os.path.join(EVID, prop + ".json"), "w") as f:
         json.dump(ev, f, indent=1, sort_keys=False)
         f.write("\n")
 
